@@ -151,6 +151,12 @@ class H:
     def ensure(self, name, cond, split=None, kind="post", **meta):
         self.eng.oblige(f"{self.prefix}/{name}", cond, split=split, kind=kind, meta=meta)
 
+    def lemma(self, name, cond, **meta):
+        """intermediate assertion: an obligation of its own (proved under the current path condition), then available
+        as a hypothesis to the obligations that follow on this path"""
+        self.ensure("lemma." + name, cond, **meta)
+        self.eng.assume(z3bool(cond), note="lemma " + name)
+
     def cover(self, name, extra=None):
         self.eng.cover(f"{self.prefix}/{name}", extra)
 
